@@ -297,6 +297,15 @@ func (c *nxCluster) check() string {
 			c.fail("C11: replica %d applied index %d but its user SM received %d of the %d user entries up to there", h.id, la, got, want)
 		}
 	}
+	if c.cfg.RequireComplete {
+		if _, more := c.defaultEvent(); !more {
+			for _, op := range c.ops {
+				if op.status != "Completed" && op.status != "lost-in-crash" {
+					c.fail("C17: at the end of the fault-free scenario op%d (%c at replica %d) has status %q instead of Completed", op.id, op.kind, op.at, op.status)
+				}
+			}
+		}
+	}
 	if c.viol == "" && c.linCheck != nil {
 		if m := c.linCheck(c); m != "" {
 			c.fail("%s", m)
